@@ -154,6 +154,29 @@ def obligations(cx):
     c12.units_obligations(cx)
     cx.assume_note("step 0 of an ideal process = standalone call: step-fluxes obligation at k=0 + default-permeances lemma (here) + basis lemma (C07)")
     cx.assume_note("calculate_partial_fluxes by contract at its call sites: equal argument leaves name the same result (pure function, C20)")
+    # ------------------------------------------------------------------ the selected model is honoured on a SHARED object: two calls of the flux law in a row
+    # (same feed state and permeate condition, different activity model) - the second call must be the law of ITS model, whatever the first left behind
+    ctrs = {'get_partial_pressures': CF.gpp_contract, '__class_invariants__': CP.CLASS_INVARIANTS}
+    ysym = var('yq')
+    for mode in C2.MODES:
+        Tp, pp = C2.mode_args(mode)
+        for m1, m2 in (('NRTL', 'UNIQUAC'), ('UNIQUAC', 'NRTL'), ('NRTL', 'NRTL')):
+            mix = W.mixture(src); pv = C2.pv_obj(src, mix, experiments=Opaque('experiments'))
+            feed = W.composition(src, Xf, 'weight'); yc = W.composition(src, ysym, 'weight')
+            Pa, Pb = W.permeance(src, C2.P1), W.permeance(src, C2.P2)
+            def run2(ex, m1=m1, m2=m2, pv=pv, feed=feed, yc=yc, Pa=Pa, Pb=Pb, Tp=Tp, pp=pp):
+                f = src.find(C2.GPF)
+                kw = dict(first_component_permeance=Pa, second_component_permeance=Pb, permeate_composition=yc, feed_composition=feed, feed_temperature=Tt, permeate_temperature=Tp, permeate_pressure=pp)
+                ex.call_function(f, [], dict(kw, calculation_type=m1), self_obj=pv, inline=True)
+                return ex.call_function(f, [], dict(kw, calculation_type=m2), self_obj=pv, inline=True)
+            rs = returns(cx.explore(run2, contracts=ctrs, pre=C2.BASE + [ysym >= 0, ysym <= 1]))
+            want = CF.F(mix, C2.P1, C2.P2, yc, feed, Tt, Tp, pp, m2)
+            t = "sequence.%s.%s-then-%s" % (mode, m1, m2)
+            cx.ob(t + ".paths", [], blit(len(rs) >= 1), kind='paths', function=C2.GPF)
+            for i, r in enumerate(rs):
+                ok = isinstance(r.value, tuple) and len(r.value) == 2
+                cx.ob("%s.%d" % (t, i), r.pc, band(eq(r.value[0], want[0]), eq(r.value[1], want[1])) if ok else FALSE, function=C2.GPF, history=True,
+                      statement="a second call on the same Pervaporation object obeys the flux law of the model selected in THAT call")
     cx.no_hidden_state(function='Pervaporation.calculate_partial_fluxes')
 
 
